@@ -208,6 +208,7 @@ Step(A, st, tok) ==
 
 \* the value of a complete program under assignment A (Undef if undecided / ill-formed); FoldLeft of the
 \* community module SequencesExt is evaluated iteratively, so long returned expressions do not exhaust the stack
-Eval(A, p) == LET st == FoldLeft(LAMBDA acc, tok : Step(A, acc, tok), <<>>, p)
+RunOn(A, st0, p) == FoldLeft(LAMBDA acc, tok : Step(A, acc, tok), st0, p)
+Eval(A, p) == LET st == RunOn(A, <<>>, p)
               IN  IF Len(st) = 1 THEN st[1] ELSE Undef
 =============================================================================
